@@ -97,6 +97,132 @@ def check_qr(inp):
     return fails
 
 
+
+# ------------------------------------------------------------------------------------------- C18
+
+@check('bipartite')
+def check_bipartite(inp):
+    import signal
+    from pytenet.bipartite_graph import BipartiteGraph, HopcroftKarp, minimum_vertex_cover
+    nu, nv = inp['nu'], inp['nv']
+    edges = [tuple(e) for e in inp['edges']]
+
+    def _alarm(signum, frame):
+        raise TimeoutError()
+    signal.signal(signal.SIGALRM, _alarm)
+    signal.setitimer(signal.ITIMER_REAL, 30.0)
+    try:
+        g = BipartiteGraph(nu, nv, edges)
+        matching = HopcroftKarp(g)()
+        ucov, vcov = minimum_vertex_cover(g)
+    except TimeoutError:
+        return ['did not terminate within 30 s']
+    except Exception as e:
+        return [f'raised {type(e).__name__}: {e}']
+    finally:
+        signal.setitimer(signal.ITIMER_REAL, 0)
+    fails = []
+    es = set(edges)
+    if any(e not in es for e in matching):
+        fails.append('matching contains a non-edge')
+    if len({u for u, _ in matching}) != len(matching) or len({v for _, v in matching}) != len(matching):
+        fails.append('matching edges share a vertex')
+    if any(not (0 <= u < nu) for u in ucov) or any(not (0 <= v < nv) for v in vcov):
+        fails.append('cover vertex out of range')
+    if any(u not in ucov and v not in vcov for u, v in es):
+        fails.append('cover misses an edge')
+    # independent optimum by brute force over vertex subsets (small graphs only)
+    if nu + nv <= 12:
+        best = None
+        verts = [('u', u) for u in range(nu)] + [('v', v) for v in range(nv)]
+        for r in range(len(verts) + 1):
+            for sub in itertools.combinations(verts, r):
+                ss = set(sub)
+                if all(('u', u) in ss or ('v', v) in ss for u, v in es):
+                    best = r; break
+            if best is not None:
+                break
+        if len(ucov) + len(vcov) != best:
+            fails.append(f'cover size {len(ucov) + len(vcov)} != minimum vertex cover size {best}')
+        if len(matching) != best:
+            fails.append(f'matching size {len(matching)} != maximum matching size {best} (Koenig)')
+    elif len(ucov) + len(vcov) != len(matching):
+        fails.append('|cover| != |matching|')
+    return fails
+
+
+# ------------------------------------------------------------------------------------------- C05 / C20
+
+def _words_close(a, b):
+    fails = []
+    for w in set(a) | set(b):
+        x, y = a.get(w, 0), b.get(w, 0)
+        if abs(x - y) > TOL * max(1.0, abs(x), abs(y)):
+            fails.append(f'word {w}: coefficient {x} != reference {y}')
+    return fails
+
+
+def _check_opchains(inp, opmap, qd):
+    from pytenet.opchain import OpChain
+    from pytenet.opgraph import OpGraph
+    from pytenet.mpo import MPO
+    from refs import words as W
+    L = inp['L']
+    chains = [OpChain(c['oids'], c['qnums'], c['coeff'], c['istart']) for c in inp['chains']]
+    if all(c.coeff == 0 for c in chains):
+        return []
+    ref = W.chains_words(chains, L, 0)
+    try:
+        g = OpGraph.from_opchains(chains, L, 0)
+    except Exception as e:
+        return [f'from_opchains raised {type(e).__name__}: {e}']
+    fails = []
+    if not g.is_consistent():
+        fails.append('graph inconsistent')
+    if g.length != L:
+        fails.append(f'graph length {g.length} != {L}')
+    try:
+        got = W.graph_words(g)
+    except Exception as e:
+        return fails + [f'graph walk failed: {e}']
+    fails += _words_close(got, ref)
+    nnz = sum(1 for c in chains if c.coeff != 0)
+    widths = W.layer_widths(g)
+    if any(w > max(nnz, 1) for w in widths):
+        fails.append(f'C20: layer widths {widths} exceed number of non-zero chains {nnz}')
+    if opmap is not None:
+        try:
+            mpo = MPO.from_opgraph(qd, g, opmap, compute_nid_map=True)
+            M = mpo.as_matrix()
+        except Exception as e:
+            return fails + [f'from_opgraph raised {type(e).__name__}: {e}']
+        ref_m = W.words_matrix(ref, opmap, len(qd)).astype(complex)
+        if not close(M, ref_m, float(np.max(np.abs(ref_m)))):
+            fails.append('MPO matrix differs from the sum of padded chains')
+        for nid, (l, i) in mpo.nid_map.items():
+            if mpo.qD[l][i] != g.nodes[nid].qnum:
+                fails.append(f'qD[{l}][{i}] != qnum of node {nid}')
+        if mpo.bond_dims != widths:
+            fails.append('bond dims differ from layer widths')
+    return fails
+
+
+@check('opchains')
+def check_opchains(inp):
+    rng = np.random.default_rng(7)
+    zeroq = all(all(q == 0 for q in c['qnums']) for c in inp['chains'])
+    opmap = {i: rng.standard_normal((2, 2)) for i in range(3)} if zeroq else None
+    return _check_opchains(inp, opmap, [0, 0])
+
+
+@check('opchains_mpo')
+def check_opchains_mpo(inp):
+    rng = np.random.default_rng(7)
+    g = inp['g']
+    opmap = {0: np.diag(rng.standard_normal(2)), 1: np.array([[0, 0], [rng.standard_normal(), 0]]),
+             2: np.array([[0, rng.standard_normal()], [0, 0]])}
+    return _check_opchains(inp, opmap, [0, g])
+
 # -------------------------------------------------------------------------------------------
 
 def main():
